@@ -81,6 +81,30 @@ P = {
    'Seconds other than the boundary seconds on ordinary days are not enumerated.'),
 }
 
+# Sequence / history spaces added in rounds 7 and 8 (DESIGN.md section 4a): appended to technique and text.
+SEQ = {
+ 'C01': 'depth-3 chains with four leaf routes validated under the ResourceCert an earlier call returned; sequences on a fresh OS thread after every exit path (history.independent); re-execution under other TZ settings',
+ 'C02': 'every field the acceptance predicate does not mention x every violation (ignored.fields), validity x signing time x instant interactions, 14 entry-point routes x every violation, history.independent, environment.tz',
+ 'C03': 'explicit-state exploration of every builder / incremental constructor over all call sequences <= 3 (builder.sequences), ownership of shared chains, handed-out iterators, Display parameters, history.independent',
+ 'C04': 'RTA validation call-order trees over inherit/blocks matrices, all accessor call sequences <= 3 on every decoded seed with interleaved iterators, per-thread CPU-time growth of the decode entry points on crafted n/4n/16n objects',
+ 'C05': 'builder operation sequences, list input forms and setter sequences, re-issue from decoded parts, history.independent, environment (TZ, slow signer across a second boundary)',
+ 'C06': 'serial-distance sequences over three judged steps, two clients on one server, failure injection at every target call, step futures abandoned at every Pending',
+ 'C07': 'the server connection and the real client as readers (every fragmentation x notify placements; real client against real server with every message cut), every construction form of every payload value under ==/Hash/Ord/wire, history.independent',
+ 'C08': 'every header field domain of malformed queries x 13 routes into the connection against an octet-level RFC 8210 model, second participants on one NotifySender, the source moving at every point of a blocked response',
+ 'C09': 'history.independent (writers failing after every k octets), handed-out ObjectReader call orders, shared-buffer ownership, TZ, Display parameters',
+ 'C10': 'explicit-state exploration of the signer (create/destroy/sign/create-message sequences <= 4 on the real SoftSigner against a handle->key model), predecessors failing at every stage, validity x CRL x signing time x instant interactions, environment',
+ 'C11': 'history.independent (sinks failing after every k octets, documents cut at every k), 16 sink kinds, handed-out and shared-value sequences, TZ, Display parameters',
+ 'C12': 'every octet at every position, history on recycled buffers, ownership forms of the shared Bytes, Display parameters',
+ 'C13': 'set-size scale, Arbitrary-made values, handed-out iterators, history.independent, Display parameters',
+ 'C14': 'serde route for rejected encodings, base-URI dimension, handed-out iterators, ownership, history.independent, environment',
+ 'C15': 'explicit-state exploration of operation sequences <= 3 on one SlurmFile object against a freshly built twin (object.history), JSON member orders and the Value route, history.independent',
+ 'C16': 'State::inc for all 2^32 serials, every sequence of 2-3 serial-carrying PDUs in one reader through every read route',
+ 'C17': 'every valid content under the other time tag, value routes of Time, date-memo and thread histories, TZ and wall-clock environment',
+}
+for k, v in SEQ.items():
+    cat, tech, text, note = P[k]
+    P[k] = (cat, tech + '; plus exhaustive bounded sequence spaces: ' + v, text + ' In addition (rounds 7-8): ' + v + '. All exhaustive within the stated bounds; see DESIGN.md section 4a.', note)
+
 QUICK_ONLY = set()
 BUILT = [l.strip() for l in open(os.path.join(V, 'tools', 'built.txt')) if l.strip() and not l.startswith('#')]
 
@@ -98,7 +122,7 @@ m = {
   },
   'engines': [
     {'name': 'E1-enumerate', 'path': 'harness/src/engine/enumerate.rs', 'serves_properties': sorted(P), 'kind_free_text': 'exhaustive product/sequence enumerators, parallel drivers'},
-    {'name': 'E2-explore', 'path': 'harness/src/shared/explore.rs', 'serves_properties': ['C03', 'C06'], 'kind_free_text': 'explicit-state BFS with canonical hashing; states rebuilt by re-execution on the real code'},
+    {'name': 'E2-explore', 'path': 'harness/src/bin/c03.rs', 'serves_properties': ['C03', 'C05', 'C06', 'C10', 'C15'], 'kind_free_text': 'explicit-state BFS with canonical hashing; states rebuilt by re-execution on the real code'},
     {'name': 'E3-sched', 'path': 'harness/src/shared/rtr_sched.rs', 'serves_properties': ['C06', 'C07', 'C08'], 'kind_free_text': 'controlled single-thread async scheduler with scripted sockets, quiescence and livelock detection'},
     {'name': 'E4-mutate', 'path': 'harness/src/shared/mutate.rs', 'serves_properties': ['C01', 'C02', 'C04', 'C09', 'C10', 'C11'], 'kind_free_text': 'deviation operators on bytes / DER TLV trees / XML'},
     {'name': 'E5-der', 'path': 'harness/src/engine/der.rs', 'serves_properties': ['C01', 'C02', 'C03', 'C04', 'C10', 'C14'], 'kind_free_text': 'independent minimal DER/CMS/X.509 encoder and TLV reader'},
